@@ -822,8 +822,8 @@ def run(ctx):
     ctx.enumerate("fallback", all_two_step_cases(), name="all-two-step-outcome-sequences")
     if not ctx.quick():
         ctx.enumerate("choose", grid_cases(), name="route-x-request-grid")
-    ctx.search("choose", choose_cases(), quick=2500, thorough=5000)
-    ctx.search("fallback", fallback_cases(), quick=500, thorough=1000)
+    ctx.search("choose", choose_cases(), quick=2500, thorough=20000)
+    ctx.search("fallback", fallback_cases(), quick=500, thorough=5000)
 
 
 # Written against the tree with out/fixes/C18-*.diff applied (several entries undo part of a fix and match
